@@ -10,7 +10,23 @@ import (
 func b64(b []byte) string { return base64.StdEncoding.EncodeToString(b) }
 
 var weirdRaw = []string{"", "=", "==", "A", "AA", "AAA", "AA==", "AAA=", "AAAA", "!!!!", "AA=A", "A===", "AAAAA",
-	"AAAA=", "=AAA", "YQ==\n", "YQ\n==", " YQ==", "YQ==YQ==", "YWJj====", "YQ=", "YQ", "YWJjZA", "*", "YWJj\n"}
+	"AAAA=", "=AAA", "YQ==\n", "YQ\n==", " YQ==", "YQ==YQ==", "YWJj====", "YQ=", "YQ", "YWJjZA", "*", "YWJj\n",
+	"YQ==!!!!", "YWJj*", "YWJjAA=A", "YQ==AAA", "YWJjYQ=", "YWJj=", "YWJj!!!!YWJj"}
+
+// spoil turns a valid base64 text into an undecodable one whose leading
+// quanta still decode to the same bytes (or to a prefix of them): trailing
+// garbage, data after the padding, an illegal character or bad padding in a
+// later quantum. A decoder that returns what it had decoded so far together
+// with its error hands exactly the original message to a careless caller.
+func spoil(r *hx.Rand, valid string) string {
+	tails := []string{"!!!!", "AAA", "*", "AA=A", "=", "====", "A", "....", "YQ=", "-_-_", " x"}
+	return valid + tails[r.Intn(len(tails))]
+}
+
+// spoiled: the fixed shapes, for corpora and exhaustive alphabets
+func spoiled(valid string) []string {
+	return []string{valid + "!!!!", valid + "AAA", valid + "*", valid + "AA=A", valid + "="}
+}
 
 func genBytes(r *hx.Rand) []byte {
 	var n int
@@ -39,6 +55,9 @@ func genBytes(r *hx.Rand) []byte {
 }
 
 func genRaw(r *hx.Rand) string {
+	if r.Chance(1, 12) {
+		return spoil(r, b64(genBytes(r)))
+	}
 	if r.Chance(7, 10) {
 		b := genBytes(r)
 		if len(b) == 0 && r.Bool() {
@@ -51,6 +70,9 @@ func genRaw(r *hx.Rand) string {
 
 func genCreds(r *hx.Rand) string {
 	users := []string{"test", "user", "", "a"}
+	if r.Chance(1, 7) { // well-formed credentials inside an undecodable payload
+		return spoil(r, b64([]byte("\x00"+users[r.Intn(len(users))]+"\x00"+[]string{"pass", "passwd", "pw"}[r.Intn(3)])))
+	}
 	switch r.Intn(8) {
 	case 0:
 		return b64([]byte("user\x00pass")) // two parts
@@ -373,6 +395,7 @@ func smallScope(x *runner, full, reduced int) {
 		{Kind: "response", Raw: "YWI="}, {Kind: "response", Raw: "="}, {Kind: "abort"},
 		{Kind: "other", Name: "success", Space: nsSASL}, {Kind: "failure", Cond: "aborted"}, {Kind: "bad", Bad: 1},
 		{Kind: "auth", Mech: "x-a", Raw: "YQ=="},
+		{Kind: "auth", Mech: "PLAIN", Raw: b64([]byte("\x00test\x00pass")) + "!!!!"}, {Kind: "response", Raw: "YWI=AAA"},
 	}
 	sRed := []item{sFull[0], sFull[1], sFull[2], sFull[4], sFull[6]}
 	runS := func(alpha []item, depth, k int) {
@@ -559,6 +582,23 @@ func corpus() []*caseT {
 		{Role: "server", Mechs: xa, Steps: two, Script: []item{{Kind: "auth", Mech: "X-A", Raw: "AA=A"}}},
 		{Role: "server", Mechs: []mechSpec{{Kind: "scram-sha-1"}, {Kind: "plain"}}, Verdicts: []bool{true}, Script: []item{{Kind: "auth", Mech: "SCRAM-SHA-1", Raw: b64([]byte("n,,n=user,r=abc"))}}},
 	}
+	// undecodable payloads whose leading part decodes to a well-formed message: PLAIN credentials the
+	// callback accepts, the initial response and a later response of a scripted mechanism; and the
+	// initiator's side of the same (challenge / success data)
+	for _, creds := range []string{"\x00test\x00pass", "\x00test\x00passwd", "admin\x00test\x00pw"} {
+		for _, raw := range spoiled(b64([]byte(creds))) {
+			cs = append(cs, &caseT{Role: "server", Mechs: []mechSpec{{Kind: "plain"}}, Verdicts: []bool{true}, Script: []item{{Kind: "auth", Mech: "PLAIN", Raw: raw}}})
+		}
+	}
+	cs = append(cs, &caseT{Role: "server", Mechs: []mechSpec{{Kind: "plain"}}, Verdicts: []bool{true}, Script: []item{{Kind: "auth", Mech: "PLAIN", Raw: "AHRlc3QAcGFzc3dkAA=A"}}})
+	for _, raw := range append(spoiled("YWJj"), spoiled("YQ==")...) {
+		cs = append(cs,
+			&caseT{Role: "server", Mechs: xa, Steps: []stepRes{{More: false}}, Script: []item{{Kind: "auth", Mech: "X-A", Raw: raw}}},
+			&caseT{Role: "server", Mechs: xa, Steps: two, Script: []item{{Kind: "auth", Mech: "X-A", Raw: "YQ=="}, {Kind: "response", Raw: raw}}},
+			&caseT{Role: "client", Mechs: xa, Adv: adv, Steps: two, Script: []item{{Kind: "success", Raw: raw}}},
+			&caseT{Role: "client", Mechs: xa, Adv: adv, Steps: two, Script: []item{{Kind: "challenge", Raw: raw}, {Kind: "success", Variant: 4}}},
+			&caseT{Role: "client", Mechs: xa, Adv: adv, Steps: []stepRes{{More: false}}, Script: []item{{Kind: "success", Raw: raw}}})
+	}
 	for _, c := range cs {
 		c.Tag = "corpus"
 	}
@@ -567,6 +607,9 @@ func corpus() []*caseT {
 
 func generate(x *runner, r *hx.Rand, o hx.Opts) {
 	for _, c := range corpus() {
+		x.one(c)
+	}
+	for _, c := range histCorpus() {
 		x.one(c)
 	}
 	// base64 encoder
@@ -627,4 +670,5 @@ func generate(x *runner, r *hx.Rand, o hx.Opts) {
 	realClient(x, r, n/6)
 	realServer(x, r, n/6)
 	e2eCases(x, r, n/40)
+	histCases(x, r, o)
 }
